@@ -30,6 +30,12 @@ def run_harnesses(prop, names, tier):
     for h in names:
         meta = HARNESSES[h]
         cmd = ["cargo", "kani", "--harness", h]
+        # two checks that share an out directory (C06 and C11 started side by side) must not run `cargo kani` in the same target
+        # directory at the same time: the second one used to end "undecided"
+        import fcntl
+        os.makedirs(outdir, exist_ok=True)
+        lock = open(os.path.join(outdir, "kani.lock"), "w")
+        fcntl.flock(lock, fcntl.LOCK_EX)
         t0 = time.time()
         try:
             p = subprocess.run(cmd, cwd=crate, stdout=subprocess.PIPE, stderr=subprocess.STDOUT, text=True, env=env, timeout=meta["timeout"])
@@ -37,7 +43,9 @@ def run_harnesses(prop, names, tier):
         except subprocess.TimeoutExpired:
             out.append({"harness": h, "status": "undecided", "summary": "timeout after %ds" % meta["timeout"], "cmd": " ".join(cmd),
                         "bounded": meta["bounded"], "what": meta["what"], "checks": 0, "checks_ok": 0})
+            lock.close()
             continue
+        lock.close()
         m = re.search(r"\*\* (\d+) of (\d+) failed", txt)
         failed, total = (int(m.group(1)), int(m.group(2))) if m else (0, 0)
         if "VERIFICATION:- SUCCESSFUL" in txt and total > 0:
